@@ -58,3 +58,52 @@ package base
 //@   requires 1 <= quorum && quorum <= 4294967296
 //@   ensures [ceil-upper] r0 * 1000 >= quorum * decimal1val(t, 510, 1000)
 //@   ensures [ceil-least] (r0 - 1) * 1000 < quorum * decimal1val(t, 510, 1000)
+
+// ---- C14: block-map chain validation ---------------------------------------------
+//
+// linked(a, b)  :=  a.Manifest().Previous().Equal(b.Manifest().Hash())
+
+// interface contracts (A9)
+//@ func (BlockMap).Manifest
+//@   pure
+//@   ensures r0 != nil
+//@ func (Manifest).Previous
+//@   pure
+//@   ensures r0 != nil
+
+//@ func IsValidMaps
+//@   prop C14
+//@   requires m != nil
+//@   requires 0 <= m.Manifest().Height() && m.Manifest().Height() < 4611686018427387904
+//@   requires previous != nil ==> 0 <= previous.Manifest().Height() && previous.Manifest().Height() < 4611686018427387904
+//@   modifies maps[*]
+//@   ensures [slot] r0 == nil ==> 0 <= (m.Manifest().Height() - ite(previous == nil, -1, previous.Manifest().Height()) - 1) && (m.Manifest().Height() - ite(previous == nil, -1, previous.Manifest().Height()) - 1) < len(maps) && maps[(m.Manifest().Height() - ite(previous == nil, -1, previous.Manifest().Height()) - 1)] == m
+//@   ensures [others] r0 == nil ==> forall(k, 0 <= k && k < len(maps) && k != (m.Manifest().Height() - ite(previous == nil, -1, previous.Manifest().Height()) - 1) ==> maps[k] == old(maps[k]))
+//@   ensures [link-previous] r0 == nil && (m.Manifest().Height() - ite(previous == nil, -1, previous.Manifest().Height()) - 1) == 0 && m.Manifest().Height() != 0 ==> previous != nil && m.Manifest().Previous().Equal(previous.Manifest().Hash())
+//@   ensures [link-left] r0 == nil && (m.Manifest().Height() - ite(previous == nil, -1, previous.Manifest().Height()) - 1) >= 1 && old(maps[(m.Manifest().Height() - ite(previous == nil, -1, previous.Manifest().Height()) - 1) - 1]) != nil ==> m.Manifest().Previous().Equal(old(maps[(m.Manifest().Height() - ite(previous == nil, -1, previous.Manifest().Height()) - 1) - 1]).Manifest().Hash())
+//@   ensures [link-right] r0 == nil && (m.Manifest().Height() - ite(previous == nil, -1, previous.Manifest().Height()) - 1) + 1 < len(maps) && old(maps[(m.Manifest().Height() - ite(previous == nil, -1, previous.Manifest().Height()) - 1) + 1]) != nil ==> old(maps[(m.Manifest().Height() - ite(previous == nil, -1, previous.Manifest().Height()) - 1) + 1]).Manifest().Previous().Equal(m.Manifest().Hash())
+
+// BatchIsValidMaps: the batch array is a monitor (validateLock); the inner
+// invariant is preserved by every job in any order (BatchWork schema).
+//@ func BatchIsValidMaps
+//@   prop C14
+//@   requires batchlimit >= 1 && batchlimit < 4611686018427387904
+//@   requires to < 4611686018427387904
+//@   requires prev != nil ==> 0 <= prev.Manifest().Height() && prev.Manifest().Height() < 4611686018427387904
+//@   requires blockMapf != nil && callback != nil
+//@   use aligned_mod, aligned_next
+//@   fnparam blockMapf ensures r1 == nil ==> r0 != nil && 0 <= r0.Manifest().Height() && r0.Manifest().Height() < 4611686018427387904
+//@   fnparam callback requires a0.Manifest().Height() == height
+//@   hof BatchWork#0 outer invariant prevheight == ite(prev == nil, -1, prev.Manifest().Height())
+//@   hof BatchWork#0 outer invariant bstart == 0 ==> newprev == prev
+//@   hof BatchWork#0 outer invariant bstart > 0 ==> newprev != nil && newprev.Manifest().Height() == prevheight + bstart
+//@   hof BatchWork#0 inner invariant prevheight == ite(prev == nil, -1, prev.Manifest().Height())
+//@   hof BatchWork#0 inner invariant maps != nil && len(maps) == blast - bstart + 1
+//@   hof BatchWork#0 inner invariant lastprev == nil ==> bstart == 0 && prev == nil
+//@   hof BatchWork#0 inner invariant lastprev != nil ==> lastprev.Manifest().Height() == prevheight + bstart
+//@   hof BatchWork#0 inner invariant [slot-height] forall(k, 0 <= k && k < len(maps) && maps[k] != nil ==> maps[k].Manifest().Height() == prevheight + bstart + k + 1)
+//@   hof BatchWork#0 inner invariant [done-filled] forall(k, 0 <= k && k < len(maps) && bdone[bstart + k] ==> maps[k] != nil)
+//@   hof BatchWork#0 inner invariant [linked] forall(k, 1 <= k && k < len(maps) && maps[k] != nil && maps[k-1] != nil ==> maps[k].Manifest().Previous().Equal(maps[k-1].Manifest().Hash()))
+//@   hof BatchWork#0 inner invariant [linked-first] maps[0] != nil && prevheight + bstart + 1 != 0 ==> lastprev != nil && maps[0].Manifest().Previous().Equal(lastprev.Manifest().Hash())
+//@   hof BatchWork#0 inner invariant [newprev] bdone[blast] ==> newprev != nil && newprev.Manifest().Height() == prevheight + blast + 1
+//@   hof BatchWork#0 inner invariant [newprev-keep] !bdone[blast] ==> newprev == lastprev
